@@ -129,6 +129,10 @@ func DecryptMessage(ctx context.Context, ct []byte, keySource X25519KeyProducer,
 	return nil
 }
 
+// minCiphertextLen is the size of the AES-GCM nonce that the aead wrapper
+// prepends to every ciphertext
+const minCiphertextLen = 12
+
 func decryptWithKey(ctx context.Context, keyId string, ct []byte, sharedKey []byte, result proto.Message) error {
 	const op = "nodeenrollment.decryptWithKey"
 
@@ -144,6 +148,12 @@ func decryptWithKey(ctx context.Context, keyId string, ct []byte, sharedKey []by
 	blobInfo := new(wrapping.BlobInfo)
 	if err := proto.Unmarshal(ct, blobInfo); err != nil {
 		return fmt.Errorf("(%s) error unmarshaling incoming blob info: %w", op, err)
+	}
+
+	// The aead wrapper splits off a fixed-size nonce without checking the
+	// length, so reject ciphertexts that cannot even hold the nonce
+	if len(blobInfo.Ciphertext) < minCiphertextLen {
+		return fmt.Errorf("(%s) ciphertext is too short", op)
 	}
 
 	var aadOpt wrapping.Option
